@@ -52,7 +52,8 @@ type decDisk struct {
 	eof      int64
 	readLog  [][2]int64 // offset, length of the first reads (fault-free pass)
 	logReads bool
-	short    int // > 0: a read returns at most 1 + (call number mod short) bytes
+	short    int  // > 0: a read returns at most 1 + (call number mod short) bytes
+	yieldAll bool // a scheduling point at every call (twin decodes), not every 64th
 }
 
 // decShort is picked up by the next decodeOnce (hapi)
@@ -61,7 +62,7 @@ var decShort int
 func (d *decDisk) Read(p []byte) (int, error) {
 	i := d.calls
 	d.calls++
-	if d.calls&63 == 0 {
+	if d.calls&63 == 0 || d.yieldAll {
 		simrt.Yield(siteDecDisk)
 	}
 	if d.persist {
